@@ -1,7 +1,7 @@
-CONSTANT Docs = {1}
+CONSTANT Docs = {1, 2}
 CONSTANT Names <- N12
 CONSTANT Contents = {1, 2}
-CONSTANT MaxSteps = 4
+CONSTANT MaxSteps = 3
 CONSTANT Modes = {FALSE, TRUE}
 CONSTANT Eccvs = {FALSE, TRUE}
 CONSTANT Kinds = {"put", "push", "del"}
